@@ -46,6 +46,13 @@ def build_harness(tags="verif"):
     os.makedirs(BUILD, exist_ok=True)
     env = go_env()
     shutil.copyfile(os.path.join(REPO, "go.sum"), os.path.join(HARNESS, "go.sum"))
+    # the harness module always builds against REPO's working tree (default /repo; VERIF_REPO points
+    # development runs at a scratch worktree)
+    gm = os.path.join(HARNESS, "go.mod")
+    txt = open(gm).read()
+    new = re.sub(r"replace github.com/conduitio/conduit => \S+", "replace github.com/conduitio/conduit => " + REPO, txt)
+    if new != txt:
+        open(gm, "w").write(new)
     t0 = time.time()
     cmd = [env["VERIF_GO"], "build", "-tags", tags, "-o", os.path.join(BUILD, "vharness"), "./cmd/vharness"]
     p = subprocess.run(cmd, cwd=HARNESS, env=env, capture_output=True, text=True)
